@@ -37,6 +37,8 @@ pub struct HistParams {
     /// number of dirs reserved as read-only roots (planted, never written)
     pub readonly_roots: usize,
     pub op_weights: OpWeights,
+    /// finish with a pruning pass judged against the model's read marks
+    pub final_prune: bool,
 }
 
 #[derive(Clone, Debug)]
@@ -675,6 +677,61 @@ pub fn run_history(tape: &mut Tape, hp: &HistParams, detail: bool) -> HistReport
     }
 
     // ---------------------------------------------------------- end of history
+    // Behavioural cross-check of the read marks: shrink every directory with
+    // a pruning pass and judge the victims with the *model's* marks, not with
+    // the on-disk predicate the library itself evaluates.
+    if hp.final_prune && findings.is_empty() {
+        w.enter(0);
+        'prune: for (di, d) in dirs.iter().enumerate() {
+            if ro_roots.contains(&di) {
+                continue;
+            }
+            let phys = w.with_fs(|fs| phys_dirs(fs, d));
+            for pd in phys {
+                let entries = w.with_fs(|fs| dir_entries(fs, &pd, true));
+                if entries.len() < 2 {
+                    continue;
+                }
+                let cap = w.draw(entries.len() as u64) as usize;
+                let known = entries.iter().all(|e| model[di].get(&e.name).map(|f| f.marked.is_some()).unwrap_or(false));
+                if !known {
+                    continue;
+                }
+                let eps_before = w.inv.lock().unwrap().episodes.len();
+                let r = kismet_cache::raw_cache::prune(std::path::PathBuf::from(&pd), cap);
+                if r.is_err() {
+                    continue;
+                }
+                let ep = {
+                    let inv = w.inv.lock().unwrap();
+                    inv.episodes[eps_before..].iter().find(|e| e.dir == pd).cloned()
+                };
+                let ep = match ep {
+                    Some(e) => e,
+                    None => continue,
+                };
+                // the model's view of the queue: rank from disk, mark from the model
+                let model_before: Vec<sc_model::Entry> = ep
+                    .before
+                    .iter()
+                    .map(|e| {
+                        let marked = model[di].get(&e.name).and_then(|f| f.marked).unwrap_or(false);
+                        sc_model::Entry { name: e.name.clone(), mtime: e.mtime, atime: if marked { e.mtime } else { e.mtime - 1 }, ino: e.ino }
+                    })
+                    .collect();
+                let after_model = ep.after_of(&model_before);
+                let names: Vec<String> = ep.restamped.iter().map(|r| r.0.clone()).collect();
+                bump(&mut counters, "final_prunes");
+                if let Err(e) = sc_model::check_maintenance(&model_before, &after_model, &names, cap, ep.now, gran) {
+                    findings.push(Finding { prop: "marks", v: Violation::new("marks-not-honoured", format!("pruning {} to {} entries did not treat the entries as the history marked them (READ = looked up / touched / put-onto since its last write): {} [{}]; model: {:?}", pd, cap, e, kn.describe(), model_before.iter().map(|e| (e.name.clone(), e.mtime, e.atime >= e.mtime)).collect::<Vec<_>>())) });
+                    break 'prune;
+                }
+                for n in ep.unlinked.iter() {
+                    model[di].remove(n);
+                }
+            }
+        }
+    }
     w.leave();
     {
         let inv = w.inv.lock().unwrap();
